@@ -70,6 +70,94 @@ def scan(repl):
     return ok, dollars, percent, env, raw
 
 
+def _abstract_literal(e):
+    """the string an expression evaluates to, with hexadecimal renderings of a code point
+    (HexstrN(..), hex(..), format(.., 'X'), '%X' % ..) abstracted to the digit '0'; None when the
+    expression is not a literal template (e.g. it contains the character itself)"""
+    import string
+    if isinstance(e, ast.Constant) and isinstance(e.value, str):
+        return e.value
+    if isinstance(e, ast.BinOp) and isinstance(e.op, ast.Add):
+        a, b = _abstract_literal(e.left), _abstract_literal(e.right)
+        return None if a is None or b is None else a + b
+    if isinstance(e, ast.Call) and call_name(e) in ('HexstrN', 'hex'):
+        return '0'
+    if isinstance(e, ast.Call) and isinstance(e.func, ast.Name) and e.func.id == 'format' and len(e.args) == 2 \
+            and isinstance(e.args[1], ast.Constant) and str(e.args[1].value)[-1:] in 'xX':
+        return '0'
+    if isinstance(e, ast.Call) and call_name(e) == 'format' and isinstance(call_recv(e), ast.Constant) \
+            and isinstance(call_recv(e).value, str):
+        args = [_abstract_literal(a) for a in e.args]
+        kws = dict((k.arg, _abstract_literal(k.value)) for k in e.keywords if k.arg)
+        out, auto = '', 0
+        try:
+            for lit_, field, spec, conv in string.Formatter().parse(call_recv(e).value):
+                out += lit_
+                if field is None:
+                    continue
+                if spec and spec[-1:] in 'xX':
+                    out += '0'
+                    if field == '':
+                        auto += 1
+                    continue
+                if field == '':
+                    v = args[auto] if auto < len(args) else None
+                    auto += 1
+                elif field.isdigit():
+                    v = args[int(field)] if int(field) < len(args) else None
+                else:
+                    v = kws.get(field)
+                if v is None:
+                    return None
+                out += v
+        except ValueError:
+            return None
+        return out
+    if isinstance(e, ast.BinOp) and isinstance(e.op, ast.Mod) and isinstance(e.left, ast.Constant) \
+            and isinstance(e.left.value, str):
+        vals = list(e.right.elts) if isinstance(e.right, ast.Tuple) else [e.right]
+        out, i, k = '', 0, 0
+        t = e.left.value
+        while i < len(t):
+            if t[i] != '%':
+                out += t[i]
+                i += 1
+                continue
+            mm = re.match(r'%(%|[-0-9.]*[sdxX])', t[i:])
+            if not mm:
+                return None
+            if mm.group(1) == '%':
+                out += '%'
+            else:
+                if k >= len(vals):
+                    return None
+                if mm.group(1)[-1] in 'xXd':
+                    out += '0'
+                else:
+                    v = _abstract_literal(vals[k])
+                    if v is None:
+                        return None
+                    out += v
+                k += 1
+            i += len(mm.group(0))
+        return out
+    if isinstance(e, ast.JoinedStr):
+        out = ''
+        for v in e.values:
+            if isinstance(v, ast.Constant):
+                out += str(v.value)
+            elif isinstance(v, ast.FormattedValue):
+                if v.format_spec is not None and unparse(v.format_spec).rstrip("'\"")[-1:] in 'xX':
+                    out += '0'
+                    continue
+                a = _abstract_literal(v.value)
+                if a is None:
+                    return None
+                out += a
+        return out
+    return None
+
+
 def run(ctx):
     repo = ctx.repo
     m = repo.mod(ENC)
@@ -160,22 +248,11 @@ def run(ctx):
         ok = bool(rets)
         lit = ''
         for r in rets:
-            parts = []
-
-            def flat(e):
-                if isinstance(e, ast.BinOp) and isinstance(e.op, ast.Add):
-                    flat(e.left)
-                    flat(e.right)
-                else:
-                    parts.append(e)
-            flat(r.value)
-            for e in parts:
-                if isinstance(e, ast.Constant) and isinstance(e.value, str):
-                    lit += e.value
-                elif isinstance(e, ast.Call) and call_name(e) == 'HexstrN':
-                    lit += '0'
-                else:
-                    ok = False
+            al = _abstract_literal(r.value)
+            if al is None:
+                ok = False
+            else:
+                lit += al
         sc = scan(lit)
         ok = ok and sc[0] and sc[1] % 2 == 0 and not sc[2] and not sc[3] and \
             all(ord(c) < 128 for c in lit)
@@ -195,13 +272,10 @@ def run(ctx):
     _fallback_only(sub, repo, m, meths)
     csa = meths.get('_check_do_skip_ascii')
     if csa is not None:
-        cmp_ = [n for n in iter_own(csa) if isinstance(n, ast.Compare) and 'ord(' in unparse(n.left)]
-        ok = len(cmp_) == 1 and isinstance(cmp_[0].ops[0], (ast.Lt, ast.LtE)) and \
-            isinstance(cmp_[0].comparators[0], ast.Constant) and \
-            (cmp_[0].comparators[0].value + (1 if isinstance(cmp_[0].ops[0], ast.LtE) else 0)) <= 128
-        ctx.decide('R13e', ok, m, csa, 'only code points below 128 are skipped',
-                   'non_ascii_only skips characters by the test %s: non-ASCII characters are copied '
-                   'raw' % (short(cmp_[0]) if cmp_ else '?'), construct='_check_do_skip_ascii bound')
+        from .c04 import skip_ascii_summary
+        why, desc = skip_ascii_summary(csa)
+        ctx.decide('R13e', why is None, m, csa, 'only code points below 128 are skipped: ' + desc,
+                   'non_ascii_only: %s' % why, construct='_check_do_skip_ascii bound')
     # ------------------------------------------------------------ R13f
     c09._module_state(ctx, repo, 'R13f', lambda name: name.startswith('pylatexenc.latexencode'))
     ctx.assume('a strict parse of arbitrary concatenations of replacements and copied input is not '
